@@ -17,6 +17,15 @@ PROPS = {
         "level_note": "Trusted: Python hashlib.blake2b tree parameters, the testdata/roots anchor, memstore. Contents above 2 MiB are sent to the Python oracle only for the first item of a case (cost).",
         "assumptions": ["testdata/roots pins the historical layout", "memstore CRC32C attribute as GCS provides it (or absent with no_crc)"],
     },
+    "C03": {
+        "pkg": "c03", "level": "fault_enumeration",
+        "rule": "Case = (object shape, one corruption of one blob). Objects of 1..6 leaves (exact multiples and partial last leaf) at leaf 64 and 4 KiB inside a 3-file bundle; corruptions of the root blob or of a leaf blob: bit flip (first, last, 3 PRNG positions), truncation (1, len-1, PRNG, a multiple of 64), extend by one byte / by 64 bytes, delete, empty, zero-fill, replace by another leaf of the same object, by a leaf of another object, by another object's valid root blob, swap two leaves. Each corruption is observed through fresh cafs instances: sequential Read (3 buffer sizes), ReadAt (full scan, targeted at the damaged leaf, neighbours, random), WriteTo to a plain writer and to a WriterAt, and core.Publish of the bundle into a local directory (download concurrency 1 and 10). Exhaustive blocks enumerate every bit position / every truncation length of one blob (quick: one leaf and one root blob; thorough: every blob of a 6-leaf and a 1-leaf object). Non-trivial: the stored bytes really changed; distinct by (leaf size, length, corruption).",
+        "exhaustive_note": "every bit flip / every truncation length of the blobs named by the exhaustive-* cases (see samples); all other corruptions are sampled",
+        "technique": "runtime fault injection into the blob store with an 'error or exact original bytes' oracle over every read style and a full bundle download",
+        "level_text": "Every blob of small objects is damaged in every way the property lists (exhaustively for bit flips and truncations of chosen blobs) and the real readers and the real download path are observed: any success that does not return exactly the stored bytes is a violation. Fault enumeration is the right level because the fault space per object is finite and small.",
+        "level_note": "Trusted: memstore, the content generator. A sequential Read is judged as one logical read (it must end in an error; bytes handed out before the damaged leaf ended are not judged). When Publish fails the destination is unconstrained.",
+        "assumptions": ["hash verification enabled (default)", "fresh cafs instance per observation (no warm caches)"],
+    },
     "C20": {
         "pkg": "c20", "level": "exploration",
         "rule": "Five families of seeded sub-cases, run in blocks: (paths) every GetArchivePathTo* builder on valid names (unicode letters/digits/hyphen, connector punctuation for labels, KSUIDs incl. min/max, user-named splits, indices incl. 2^63 and 2^64-1) parsed back with GetArchivePathComponents and entered in a path->identity map; (consumable) GetConsumablePathTo* vs GetConsumableStorePathMetadata; (generated) IsGeneratedFile vs an independent first-component predicate on reserved names and near misses; (descriptors) randomly populated descriptors of 8 types through yaml marshal/unmarshal; (validation) ValidateRepo/ValidateLabel vs the documented alphabets. distinct_nontrivial counts distinct generated paths / names / serialized descriptors.",
